@@ -1,4 +1,4 @@
 SPECIFICATION Spec
 CONSTANT Tier = "thorough"
-INVARIANTS RoundTripLaw SizeLaw CanonicalLaw ReEncodeLaw PrefixLaw NonCanonLaw HostileLaw TxIdLaw AlignedLaw FrameLaw
+INVARIANTS RoundTripLaw SizeLaw CanonicalLaw ReEncodeLaw PrefixLaw NonCanonLaw HostileLaw TxIdLaw AlignedLaw FrameLaw V2TableLaw V2Law
            EmitCase
